@@ -67,7 +67,7 @@ func replayPV(p refchess.Pos, pv []string) error {
 // judge checks all clauses on the output of one search from p.
 func judge(p refchess.Pos, r srch.Result, rec *evid.Rec, warmed bool) error {
 	if r.BadLine != "" {
-		return fmt.Errorf("output line does not match the documented format: %q", r.BadLine)
+		return fmt.Errorf("info line whose depth / nodes / pv cannot be read (pv tokens must be moves): %q", r.BadLine)
 	}
 	lastDepth, lastNodes := -1, 0
 	var lastPV []string
@@ -331,7 +331,7 @@ func genCase(t *rapid.T) Case {
 
 func TestC07(t *testing.T) {
 	evid.Main(t, "C07", func(rec *evid.Rec) {
-		rec.Rule("game fragments: root (startpos/suite/bench/synthetic/motif + playout history) searched 1..6 times in a row by one engine instance (tables carry over; the engine's move or a drawn legal move is played in between) with depth 1..9, hard/soft node limits, table 32 KB (1024 buckets, heavy collisions: the smallest the info line supports) or 1 MB; through search.Go with captured output and through the real UCI driver with Ponder enabled. Oracle: every output line matches the documented format; every reported pv replays legally on the reference from the root; depths strictly increase, node counts never decrease; the returned move is the first move of the last non-empty pv; a non-null ponder move is legal after it. Non-trivial = search on a warmed or 32 KB table reporting >=2 full lines with a pv of length >=2; distinct by (game prefix, table, limits)")
+		rec.Rule("game fragments: root (startpos/suite/bench/synthetic/motif + playout history) searched 1..6 times in a row by one engine instance (tables carry over; the engine's move or a drawn legal move is played in between) with depth 1..9, hard/soft node limits, table 32 KB (1024 buckets, heavy collisions: the smallest the info line supports) or 1 MB; through search.Go with captured output and through the real UCI driver with Ponder enabled. Oracle (info lines are read tolerantly: any field order, unknown fields ignored; only depth, nodes and pv are used, and a pv token that is not a move is a violation): every reported pv replays legally on the reference from the root; depths strictly increase, node counts never decrease; the returned move is the first move of the last non-empty pv; a non-null ponder move is legal after it. Non-trivial = search on a warmed or 32 KB table reporting >=2 full lines with a pv of length >=2; distinct by (game prefix, table, limits)")
 		rec.Assume("reference rules from verif/refchess; roots whose game is already over are skipped (C06 owns them)")
 		keys := func(c Case) []string { return []string{"game"} }
 		_ = keys
